@@ -74,7 +74,13 @@ def build_pool():
         class H(Service):
             @srpc(_returns=Integer, _in_message_name='{urn:elsewhere}f')
             def p(): return bump('H_p')
-        return {'A': A, 'B': B, 'C': C, 'D': D, 'E': E, 'G': G, 'H': H}
+        class I(Service):
+            @srpc(_returns=Integer, _in_message_name='{urn:elsewhere}k9')
+            def r(): return bump('I_r')
+
+            @srpc(_returns=Integer)
+            def k9(): return bump('I_k9')
+        return {'A': A, 'B': B, 'C': C, 'D': D, 'E': E, 'G': G, 'H': H, 'I': I}
     return mk
 
 
